@@ -29,7 +29,10 @@ def zero_hp(lay, P):
     return bytes(buf)
 
 
-def construct(m, cls, mid, pbf, kwargs):
+def construct(m, cls, mid, pbf, kwargs, alias=None):
+    """alias: every [class name, message name] pair the message-ID table maps to this class / ID (several for the MGA / RXM messages
+    whose third key byte is a payload attribute): one case in five addresses the message by one of them - the name only selects class
+    and ID, the layout follows from the keywords"""
     from pyubx2 import UBXMessage
 
     if len(kwargs) > 1:
@@ -52,6 +55,11 @@ def construct(m, cls, mid, pbf, kwargs):
             if (cls + 3 * mid + len(kwargs)) % 5 == 2:
                 # parsebitfield positionally, the mode as a member of an IntEnum
                 msg = UBXMessage(bytes([cls]), bytes([mid]), envrot.mode_arg(m, 5), pbf, **kwargs)
+            elif alias and (cls + 3 * mid + len(kwargs)) % 5 == 3:
+                a = alias[(len(kwargs) + sum(len(k) for k in kwargs)) % len(alias)]
+                msg = UBXMessage(a[0], a[1], m, parsebitfield=pbf, **kwargs)
+            elif (cls + 3 * mid + len(kwargs)) % 5 == 4:
+                msg = UBXMessage(cls, mid, m, parsebitfield=pbf, **kwargs)  # (class and ID as integers)
             else:
                 msg = UBXMessage(bytes([cls]), bytes([mid]), m, parsebitfield=pbf, **kwargs)
             if pristine is not None and any(isinstance(v, (list, bytearray, dict)) for k, v in vars(msg).items() if not k.startswith("_")):
@@ -107,7 +115,7 @@ def obs_c03(case):
     if not kwargs:
         return ev
     history.run(case.get("hist"))
-    msg, out = construct(m, cls, mid, pbf, kwargs)
+    msg, out = construct(m, cls, mid, pbf, kwargs, alias=case.get("alias"))
     ev["out"] = out
     if msg is None:
         return ev
@@ -260,6 +268,8 @@ def obs_c04(case):
     forms = [(bytes([cls]), bytes([mid])), (cls, mid)]
     if case.get("names"):
         forms.append(tuple(case["names"]))
+        # ... and as instances of a str subclass with case-insensitive equality, written in lower case
+        forms.append((envrot.CIStr(case["names"][0].lower()), envrot.CIStr(case["names"][1].lower())))
     if case["route"] == "lenient":
         forms = forms[:1]
     sers = []
@@ -270,6 +280,10 @@ def obs_c04(case):
                 msg = UBXReader.parse(bytes.fromhex(case["f"]), msgmode=m, validate=0)
             else:
                 msg = UBXMessage(a, b, m, **kw)
+            # "however a message is obtained": three times in eight what is serialised is a pickle / deepcopy / copy twin
+            # (the same kind of twin for every addressing form of a case; a message holding a memoryview cannot be pickled at all)
+            if not isinstance(kw.get("payload"), memoryview):
+                msg = envrot.twin(msg, envrot.key(cls, mid, m, len(kw)) + (len(case.get("P") or "") // 2))
         except Exception as ex:  # noqa: BLE001
             sers.append((None, "exc:" + classify_build_exc(ex)))
             continue
@@ -304,6 +318,43 @@ def obs_c04(case):
     except Exception as ex:  # noqa: BLE001
         ev["reparse"] = classify_exc(ex)
     return ev
+
+
+def obs_c04_ext(case):
+    """message types registered / re-registered by the application at run time (the tables are public dictionaries): a new class and
+    two IDs are added after the library has been used, then a name is moved to another ID (table sizes unchanged).  The event is an
+    ordinary C04 construction of the (re)registered type through every addressing form.  Runs in a child interpreter only."""
+    import os
+
+    if not os.environ.get("VERIF_CHILD"):
+        raise RuntimeError("obs_c04_ext edits the library's tables: child interpreters only")
+    import pyubx2.ubxtypes_core as core
+    from pyubx2 import UBXMessage
+
+    cls, step = case["cls"], case["step"]
+    for warm in (("NAV", "NAV-PVT"), ("ACK", "ACK-ACK")):   # the library in use before the application registers anything
+        UBXMessage(warm[0], warm[1], 0)
+    if bytes([cls]) not in core.UBX_CLASSES:
+        core.UBX_CLASSES[bytes([cls])] = "XYZ"
+        core.UBX_MSGIDS[bytes([cls, 1])] = "XYZ-STAT"
+        core.UBX_MSGIDS[bytes([cls, 7])] = "XYZ-AUX"
+        from pyubx2.ubxtypes_get import UBX_PAYLOADS_GET
+
+        UBX_PAYLOADS_GET["XYZ-STAT"] = {"status": "U001", "uptime": "U004"}
+        UBX_PAYLOADS_GET["XYZ-AUX"] = {"aux": "U001", "count": "U004"}
+        UBXMessage("XYZ", "XYZ-STAT", 0)
+        UBXMessage("XYZ", "XYZ-AUX", 0)
+    mid = 1
+    if step >= 1:     # XYZ-STAT moves from ID 1 to ID 2 (delete + add: the table keeps its size)
+        core.UBX_MSGIDS.pop(bytes([cls, 1]), None)
+        core.UBX_MSGIDS[bytes([cls, 2])] = "XYZ-STAT"
+        mid = 2
+    if step >= 2:     # ... and swaps places with XYZ-AUX
+        core.UBX_MSGIDS[bytes([cls, 2])] = "XYZ-AUX"
+        core.UBX_MSGIDS[bytes([cls, 7])] = "XYZ-STAT"
+        mid = 7
+    return obs_c04({"m": 0, "cls": cls, "id": mid, "name": "XYZ-STAT", "names": ["XYZ", "XYZ-STAT"], "route": case.get("route", "none"),
+                    "P": case.get("P"), "kwargs": None})
 
 
 def obs_c04_cfg(case):
@@ -367,4 +418,4 @@ def obs_c03_mt(case):
 
 from .optchild import obs_opt_single  # noqa: E402
 
-OBSERVERS = {"c03mt": obs_c03_mt, "c03": obs_c03, "c15": obs_c15, "c04": obs_c04, "c04cfg": obs_c04_cfg, "opt": obs_opt_single}
+OBSERVERS = {"c03mt": obs_c03_mt, "c03": obs_c03, "c15": obs_c15, "c04": obs_c04, "c04cfg": obs_c04_cfg, "c04ext": obs_c04_ext, "opt": obs_opt_single}
